@@ -27,7 +27,7 @@ RULE = (
     "leaves str(ro) unchanged; MosFile.from_string(str(ro)) is exactly RunningOrder, completed, with "
     "the same serialisation, and refuses messages too; strict collection merge raises "
     "MosCompletedMergeError at the first message after the roDelete, non-strict finishes with the "
-    "state at completion and one MosMergeNonStrictWarning per later message.  Non-trivial = >= 1 "
+    "state at completion and one MosMergeNonStrictWarning per later message; the same when the completed running order is written out and given to a collection together with the late messages; one roDelete in five names another (or a blank) roID and is merged directly only.  Non-trivial = >= 1 "
     "effective merge before the roDelete and >= 3 distinct message classes after it.")
 ASSUMPTIONS = ['documents carrying mosromgrmeta are only ever produced by the library itself']
 MANDATORY = ['effective-prefix', 'after:all-26-classes', 'collection:strict', 'collection:non-strict',
@@ -111,9 +111,37 @@ def judge_case(case):
                     done_now = str(target)
                     if name == 'live':
                         done = done_now
+        # the completed running order, written out, handed to a collection with late messages
+        later = sorted(case['after_collection'], key=_mid)
+        same_ro = (ET.fromstring(case['delete']).find('roDelete').findtext('roID')
+                   == ET.fromstring(case['ro_xml']).find('roCreate').findtext('roID'))
+        for strict in ((True, False) if later and same_ro else ()):
+            try:
+                mc = MosCollection.from_strings([done] + later, allow_incomplete=True)
+            except Exception as e2:
+                fail('saved-completed-ro-in-collection|rejected', f'{type(e2).__name__}: {e2}')
+                break
+            with warnings.catch_warnings(record=True) as rec:
+                warnings.simplefilter('always')
+                try:
+                    mc.merge(strict=strict)
+                    ex = None
+                except Exception as e2:
+                    ex = e2
+            n_ns = sum(1 for w in rec if issubclass(w.category, MosMergeNonStrictWarning))
+            if strict and not isinstance(ex, MosCompletedMergeError):
+                fail('saved-completed-ro-in-collection|strict|no-MosCompletedMergeError',
+                     f'strict merge of a saved completed running order + {len(later)} late messages gave '
+                     f'{type(ex).__name__ if ex else "no exception"}')
+            if not strict and (ex is not None or n_ns != len(later)):
+                fail('saved-completed-ro-in-collection|non-strict|refusals-not-reported',
+                     f'{type(ex).__name__ if ex else "no exception"}, {n_ns} MosMergeNonStrictWarning for '
+                     f'{len(later)} late messages', len(later), n_ns)
+            if str(mc) != done:
+                fail('saved-completed-ro-in-collection|changed', 'late messages changed the saved running order')
         # collection variants over the same documents
         docs = [case['ro_xml']] + case['prefix'] + [case['delete']] + case['after_collection']
-        for strict in (True, False):
+        for strict in ((True, False) if same_ro else ()):
             mc = MosCollection.from_strings(docs, allow_incomplete=False)
             with warnings.catch_warnings(record=True) as rec:
                 warnings.simplefilter('always')
@@ -189,7 +217,9 @@ def cases(draw):
     state = xmlcmp.state_of(ET.fromstring(str(ro)))
     # the roDelete and everything sent after it sort behind every earlier message
     mid = max(int(ET.fromstring(d).findtext('messageID').strip()) for d in docs) + 1000
-    delete = B.tostring(B.envelope(B.ro_delete(col['ro_id'], draw(st.lists(gen.generic(depth=1), max_size=2))),
+    # merged directly, a roDelete completes the running order whatever roID it names
+    del_ro = col['ro_id'] if draw(st.integers(0, 4)) else draw(st.sampled_from(['OTHER-RO', '', col['ro_id'] + ' ']))
+    delete = B.tostring(B.envelope(B.ro_delete(del_ro, draw(st.lists(gen.generic(depth=1), max_size=2))),
                                    mid, ncs_id=draw(st.none() | st.just('NCS'))),
                         pretty=draw(st.booleans()))
     after = []
